@@ -69,16 +69,7 @@ func VerifC05_ops() {
 func VerifC05_slowstart() {
 	n := vrt.Range("n", 1, vrt.Param("N", 2))
 	brr := NewBalanceRR("sc")
-	// weights are enumerated concretely here: the ramp multiplies the weight by the (symbolic) elapsed
-	// time, and a symbolic x symbolic 64-bit product followed by a division is what the solver is worst at
-	var conf cluster_table_conf.SubClusterBackend
-	for i := 0; i < n; i++ {
-		name, addr, port := "b", addrsC05[i], 80
-		wt := vrt.Range("w", -1, 3)
-		conf = append(conf, &cluster_table_conf.BackendConf{Name: &name, Addr: &addr, Port: &port, Weight: &wt})
-	}
-	vrt.Assume(conf.Check() == nil)
-	brr.Init(conf)
+	brr.Init(confC05(0, n))
 	brr.SetSlowStart(vrt.Range("sstime", 1, 2))
 	for i := 0; i < n; i++ {
 		brr.backends[i].backend.SetRestart(vrt.Bool("restarted"))
